@@ -8,6 +8,7 @@ import SfntV.Proofs.T2
 import SfntV.Proofs.T2Progress
 import SfntV.Proofs.T2Loop
 import SfntV.Proofs.T2WF
+import SfntV.Proofs.T2WFCalls
 
 namespace SfntV.Props.C05
 open SfntV SfntV.T2 SfntV.Spec.T2
@@ -249,6 +250,39 @@ theorem C05_quirks_irrelevant (env : Env) (p : Program) (h : WF p) (ha : Agrees 
   obtain ⟨g, hg, hq⟩ := wf_progress env p h
   rw [hq ha]
   exact hg.symm
+
+/-- Progress with subroutines: a program with calls (`callsubr`, `callgsubr`) into stack-neutral
+subroutine tables — every body a sequence of complete grammar tokens (possibly with further calls)
+closed by `return`, or ending the glyph with `endchar`; every biased index valid for its table (all
+three bias classes, tables up to 65536 entries), at most 10 nested calls, every body well formed in the
+state of each of its call sites (`wfCheckP`, a decidable checker with fuel) — is executed by the
+specification interpreter without error. -/
+theorem C05_progress_calls (T : Tables) (dw nw : Int) (fuel : Nat) (p : PProgram)
+    (h : wfCheckP T fuel p = true) :
+    ∃ g, Spec.T2.interp (T.env dw nw) (encodeP T p) = .ok g := by
+  obtain ⟨g, hg, _⟩ := wfP_progress T dw nw fuel p h
+  exact ⟨g, hg⟩
+
+/-- … and if the main program and all subroutine bodies avoid the known deviations (`agreesCheckP`)
+the model of the Go decoder returns exactly the specification's glyph. -/
+theorem C05_quirks_irrelevant_calls (T : Tables) (dw nw : Int) (fuel : Nat) (p : PProgram)
+    (h : wfCheckP T fuel p = true) (ha : agreesCheckP T p = true) :
+    T2.interp goQuirks (T.env dw nw) (encodeP T p) = Spec.T2.interp (T.env dw nw) (encodeP T p) := by
+  obtain ⟨g, hg, hq⟩ := wfP_progress T dw nw fuel p h
+  rw [hq ha]
+  exact hg.symm
+
+/-- non-vacuity: the main program sets the width and a stem, calls local subroutine 1 (a moveto and a
+global call), which calls global subroutine 0 (a line); then a curve and endchar in local subroutine 0 -/
+def exTables : Tables :=
+  { lsubrs := [[.tok (.int 1), .tok (.int 2), .tok (.int 3), .tok (.int 4), .tok (.op .hvcurveto), .tok (.op .endchar)],
+               [.tok (.int 5), .tok (.int 6), .tok (.op .rmoveto), .call true 0]],
+    gsubrs := [[.tok (.int 7), .tok (.int 8), .tok (.op .rlineto)]] }
+
+def exMain : PProgram :=
+  [.tok (.int 50), .tok (.int 10), .tok (.int 20), .tok (.op .hstem), .call false 1, .call false 0]
+
+example : wfCheckP exTables 100 exMain = true ∧ agreesCheckP exTables exMain = true := by decide
 
 /-- A well-formed sample program: width 50, hstem, implicit vstem + hintmask, rmoveto, rlineto with an
 arithmetic operand, hvcurveto with trailing operand, flex1, endchar. -/
